@@ -80,9 +80,23 @@ def oracle(c, got):
     for idx, (op, g, e) in enumerate(zip(ops, steps, exp)):
         if op[0] == 'q':
             # equality must be extensional (column 0 of the query)
-            if g.split(' ')[0] != e.split(' ')[0]:
+            gs, es = g.split(' '), e.split(' ')
+            if gs[0] != es[0]:
                 return 'step %d %r: == gave %s but the sets %s the same addresses' % (
-                    idx, op, g.split(' ')[0], 'contain' if e.split(' ')[0] == 'T' else 'do not contain')
+                    idx, op, gs[0], 'contain' if es[0] == 'T' else 'do not contain')
+            # != is the negation of ==; repr() shows the canonical list of the first operand
+            if len(gs) <= H.REPR_COL:
+                return 'step %d %r: query row has only %d columns' % (idx, op, len(gs))
+            if gs[13] != es[13]:
+                return 'step %d %r: != gave %s but the sets %s the same addresses' % (
+                    idx, op, gs[13], 'contain' if es[0] == 'T' else 'do not contain')
+            try:
+                shown = H.repr_col_shown(gs[H.REPR_COL])
+            except Exception as err:
+                return 'step %d %r: repr is not readable (%s)' % (idx, op, err)
+            if shown != es[H.REPR_COL]:
+                return 'step %d %r: repr shows %s, the minimal host-bit-free CIDR list is %s' % (
+                    idx, op, shown, es[H.REPR_COL])
             continue
         if e == H.RAISES:
             if not g.startswith('!'):
